@@ -163,7 +163,7 @@ class mm_reader {
             if (row_beg < 0) row_beg = 0;
             if (row_end < 0) row_end = n;
 
-            precondition(row_beg >= 0 && row_end <= n,
+            precondition(row_beg >= 0 && row_beg <= row_end && row_end <= n,
                     "Wrong subset of rows is requested");
 
             ptrdiff_t _nnz = _symmetric ? 2 * nnz : nnz;
@@ -278,7 +278,7 @@ class mm_reader {
             if (row_beg < 0) row_beg = 0;
             if (row_end < 0) row_end = n;
 
-            precondition(row_beg >= 0 && row_end <= n,
+            precondition(row_beg >= 0 && row_beg <= row_end && row_end <= n,
                     "Wrong subset of rows is requested");
 
             val.resize((row_end - row_beg) * m);
